@@ -307,6 +307,13 @@ class HttpProtocolHandler(BaseTcpServerHandler[HttpClientConnection]):
         # Invoke plugin.on_request_complete
         output = self.plugin.on_request_complete()
         if isinstance(output, bool):
+            # Bytes received in the same segment after the end of the first
+            # request belong to what follows it (next pipelined request or
+            # tunnel data), hand them over like any later client data.
+            if output is False and self.request.buffer:
+                remaining = self.request.buffer
+                self.request.buffer = None
+                self.plugin.on_client_data(remaining)
             return output
         assert isinstance(output, ssl.SSLSocket)
         logger.debug(
